@@ -70,6 +70,63 @@ Lemma the_drop_at_eff c :
   the_drop_at c = cl_drop_at (eff_client (cs_flow c) (cs_req c) (cs_client c)).
 Proof. unfold the_drop_at. destruct (cs_flow c); reflexivity. Qed.
 
+Lemma substring_all s : substring 0 (String.length s) s = s.
+Proof. induction s as [|a r IH]; cbn; [reflexivity | now rewrite IH]. Qed.
+
+Lemma custom_name_inv s n : custom_name s = Some n -> s = ("custom:" ++ n)%string.
+Proof.
+  unfold custom_name.
+  destruct s as [|c1 s]; [discriminate|]. cbn [prefix]. destruct (ascii_dec "c" c1) as [<-|]; [|discriminate].
+  destruct s as [|c2 s]; [discriminate|]. cbn [prefix]. destruct (ascii_dec "u" c2) as [<-|]; [|discriminate].
+  destruct s as [|c3 s]; [discriminate|]. cbn [prefix]. destruct (ascii_dec "s" c3) as [<-|]; [|discriminate].
+  destruct s as [|c4 s]; [discriminate|]. cbn [prefix]. destruct (ascii_dec "t" c4) as [<-|]; [|discriminate].
+  destruct s as [|c5 s]; [discriminate|]. cbn [prefix]. destruct (ascii_dec "o" c5) as [<-|]; [|discriminate].
+  destruct s as [|c6 s]; [discriminate|]. cbn [prefix]. destruct (ascii_dec "m" c6) as [<-|]; [|discriminate].
+  destruct s as [|c7 s]; [discriminate|]. cbn [prefix]. destruct (ascii_dec ":" c7) as [<-|]; [|discriminate].
+  assert (Hp : prefix "" s = true) by (destruct s; reflexivity).
+  cbn [prefix]. rewrite Hp. intro E. cbn in E. rewrite Nat.sub_0_r, substring_all in E. now inversion E.
+Qed.
+
+Lemma custom_with_in v scopes e :
+  In e (custom_with v scopes) -> string_in ("custom:" ++ fst e)%string scopes = true.
+Proof.
+  unfold string_in. induction scopes as [|s r IH]; cbn [custom_with existsb In]; [tauto|].
+  destruct (custom_name s) as [n|] eqn:En.
+  - intros [<-|Hin].
+    + cbn [fst]. apply custom_name_inv in En. subst s. now rewrite eqb_refl_s.
+    + rewrite (IH Hin). apply orb_true_r.
+  - intro Hin. rewrite (IH Hin). apply orb_true_r.
+Qed.
+
+Lemma custom_claims_in client scopes e :
+  In e (custom_claims client scopes) -> string_in ("custom:" ++ fst e)%string scopes = true.
+Proof. apply custom_with_in. Qed.
+
+(* ---------------- custom claims against registered members ---------------- *)
+Lemma merge_registered_in written custom e :
+  In e (merge_registered written custom) ->
+  In e custom /\ forall n, In n written -> fold_eq (fst e) n = false.
+Proof.
+  unfold merge_registered. intro Hin. apply filter_In in Hin as [Hin Hf]. split; [exact Hin|].
+  intros n Hn. apply negb_true_iff in Hf. unfold folds_to in Hf.
+  destruct (fold_eq (fst e) n) eqn:E; [|reflexivity].
+  assert (existsb (fold_eq (fst e)) written = true) by (apply existsb_exists; eauto). congruence.
+Qed.
+
+(* the marshalled document: the written members, then the surviving custom
+   claims.  Whatever entry of it a case-insensitive decoder can take for a
+   written member IS that member's own entry. *)
+Lemma merged_document_members (reg custom : list (string * string)) k v n :
+  In (k, v) (reg ++ merge_registered (map fst reg) custom) ->
+  In n (map fst reg) -> fold_eq k n = true -> In (k, v) reg.
+Proof.
+  intros Hin Hn Hf. apply in_app_or in Hin as [Hin|Hin]; [exact Hin|].
+  apply merge_registered_in in Hin as [_ Hno]. cbn [fst] in Hno. rewrite (Hno n Hn) in Hf. discriminate.
+Qed.
+
+Lemma fold_eq_refl a : fold_eq a a = true.
+Proof. unfold fold_eq. apply eqb_refl_s. Qed.
+
 (* ---------------- facts about the ID token claims ---------------- *)
 Section IDFacts.
   Variable H : hkind -> string -> list nat.
@@ -89,16 +146,17 @@ Section IDFacts.
     /\ i_acr ic = (if is_auth_request f then rq_acr rq else "")
     /\ i_amr ic = (if is_exchange f then [] else rq_amr rq)
     /\ i_at_hash ic = (if access =s "" then "" else claim_hash H (sk_alg k) access)
-    /\ i_c_hash ic = (if flow_code f =s "" then "" else claim_hash H (sk_alg k) (flow_code f))
-    /\ i_extra ic = [].
+    /\ i_c_hash ic = (if flow_code f =s "" then "" else claim_hash H (sk_alg k) (flow_code f)).
   Proof.
-    unfold ic, mk_id_token. destruct (id_userinfo_scopes f cl rq access); cbn; repeat split.
+    unfold ic, mk_id_token. destruct (id_userinfo_scopes f cl rq access);
+      cbn [id_with_custom set_userinfo id_base i_iss i_aud i_azp i_client_id i_exp i_iat i_auth_time
+           i_nonce i_acr i_amr i_at_hash i_c_hash]; repeat split.
   Qed.
 
   Lemma id_sub : i_sub ic = rq_sub rq.
   Proof.
     unfold ic, mk_id_token. destruct (id_userinfo_scopes f cl rq access) as [s|]; [|reflexivity].
-    cbn. destruct (string_in "openid" s); cbn.
+    cbn [id_with_custom set_userinfo id_base userinfo i_sub ui_sub]. destruct (string_in "openid" s); cbn [String.eqb].
     - destruct (rq_sub rq =s "") eqn:E; [|reflexivity]. apply eqb_eq_s in E. now rewrite E.
     - reflexivity.
   Qed.
@@ -112,6 +170,24 @@ Section IDFacts.
     unfold id_userinfo_scopes, granted. destruct (is_exchange f) eqn:Ex.
     - intros E; inversion E; subst. unfold id_scopes. now rewrite Ex.
     - destruct (id_scopes f cl rq access) eqn:Es; [discriminate|]. intros E; inversion E; subst; auto.
+  Qed.
+
+  Lemma id_written_with_custom c x : id_written (id_with_custom c x) = id_written c.
+  Proof. reflexivity. Qed.
+
+  (* every claim besides the registered members: a custom claim of a granted
+     custom:<name> scope, and no case-insensitive decoder takes it for a member
+     that is written into this token *)
+  Lemma id_extra e :
+    In e (i_extra ic) ->
+    string_in ("custom:" ++ fst e)%string granted = true
+    /\ forall n, In n (id_written ic) -> fold_eq (fst e) n = false.
+  Proof.
+    unfold ic, mk_id_token.
+    destruct (id_userinfo_scopes f cl rq access) as [s|] eqn:Es; [|intros []].
+    rewrite id_written_with_custom. cbn [id_with_custom i_extra].
+    intro Hin. apply merge_registered_in in Hin as [Hc Hno]. split; [|exact Hno].
+    apply custom_with_in in Hc. now apply (userinfo_scopes_granted s _ Es).
   Qed.
 
   Lemma id_user_claims :
@@ -152,33 +228,15 @@ Proof.
   unfold append_client. destruct (string_in cl aud) eqn:E; [exact E | apply string_in_app_r].
 Qed.
 
-Lemma substring_all s : substring 0 (String.length s) s = s.
-Proof. induction s as [|a r IH]; cbn; [reflexivity | now rewrite IH]. Qed.
-
-Lemma custom_name_inv s n : custom_name s = Some n -> s = ("custom:" ++ n)%string.
+Lemma audience_exact client aud :
+  string_in client (append_client client aud) = true
+  /\ (string_in client aud = false -> append_client client aud = aud ++ [client])
+  /\ (string_in client aud = true -> append_client client aud = aud).
 Proof.
-  unfold custom_name.
-  destruct s as [|c1 s]; [discriminate|]. cbn [prefix]. destruct (ascii_dec "c" c1) as [<-|]; [|discriminate].
-  destruct s as [|c2 s]; [discriminate|]. cbn [prefix]. destruct (ascii_dec "u" c2) as [<-|]; [|discriminate].
-  destruct s as [|c3 s]; [discriminate|]. cbn [prefix]. destruct (ascii_dec "s" c3) as [<-|]; [|discriminate].
-  destruct s as [|c4 s]; [discriminate|]. cbn [prefix]. destruct (ascii_dec "t" c4) as [<-|]; [|discriminate].
-  destruct s as [|c5 s]; [discriminate|]. cbn [prefix]. destruct (ascii_dec "o" c5) as [<-|]; [|discriminate].
-  destruct s as [|c6 s]; [discriminate|]. cbn [prefix]. destruct (ascii_dec "m" c6) as [<-|]; [|discriminate].
-  destruct s as [|c7 s]; [discriminate|]. cbn [prefix]. destruct (ascii_dec ":" c7) as [<-|]; [|discriminate].
-  assert (Hp : prefix "" s = true) by (destruct s; reflexivity).
-  cbn [prefix]. rewrite Hp. intro E. cbn in E. rewrite Nat.sub_0_r, substring_all in E. now inversion E.
+  split; [apply string_in_append_client|]. unfold append_client.
+  split; intro Hc; now rewrite Hc.
 Qed.
 
-Lemma custom_claims_in client scopes e :
-  In e (custom_claims client scopes) -> string_in ("custom:" ++ fst e)%string scopes = true.
-Proof.
-  unfold string_in. induction scopes as [|s r IH]; cbn [custom_claims existsb In]; [tauto|].
-  destruct (custom_name s) as [n|] eqn:En.
-  - intros [<-|Hin].
-    + cbn [fst]. apply custom_name_inv in En. subst s. now rewrite eqb_refl_s.
-    + rewrite (IH Hin). apply orb_true_r.
-  - intro Hin. rewrite (IH Hin). apply orb_true_r.
-Qed.
 
 Lemma string_in_filter x p l : string_in x (filter p l) = true -> string_in x l = true.
 Proof.
@@ -379,7 +437,7 @@ Proof.
   set (Hf := lookup_hash (cs_hashes c)) in *.
   set (acc := access_wire (r_access (model_response c))) in *.
   pose proof (id_core Hf (cs_issuer c) (cs_flow c) (cs_client c) (case_key_id c) (cs_user c) (cs_req c) acc (cs_now0 c))
-    as (Iiss & Iaud & Iazp & _ & Iexp & Iiat & Iauth & Inonce & Iacr & Iamr & Iath & Ich & Iex).
+    as (Iiss & Iaud & Iazp & _ & Iexp & Iiat & Iauth & Inonce & Iacr & Iamr & Iath & Ich).
   pose proof (id_sub Hf (cs_issuer c) (cs_flow c) (cs_client c) (case_key_id c) (cs_user c) (cs_req c) acc (cs_now0 c)) as Isub.
   pose proof (id_user_claims Hf (cs_issuer c) (cs_flow c) (cs_client c) (case_key_id c) (cs_user c) (cs_req c) acc (cs_now0 c))
     as (Un & Ue & Uv & Uu & Up & Upv & Ua).
@@ -416,7 +474,9 @@ Proof.
   - exact Up.
   - exact Upv.
   - exact Ua.
-  - now rewrite Iex.
+  - apply forallb_forall. intros e He. rewrite Hic in He.
+    apply (id_extra Hf (cs_issuer c) (cs_flow c) (cs_client c) (case_key_id c) (cs_user c) (cs_req c) acc (cs_now0 c)) in He.
+    apply He.
 Qed.
 
 (* ---------------- part 3: the access token ---------------- *)
@@ -480,7 +540,7 @@ Proof.
       cbn [sign_desc j_alg].
       rewrite (verify_access_accepts sym_verify (cs_issuer c) [sk_alg (case_key_at c)] (case_key_at c) (cs_keys c)
                  (at_to_c01 ac) (cs_vnow c)).
-      + cbn [List.length forallb option_eqb pair_eqb fst snd a_jti a_sub ac mk_access_token_claims].
+      + cbn [List.length forallb option_eqb pair_eqb fst snd a_jti a_sub ac mk_access_token_claims at_with_custom].
         now rewrite !pair_eqb_refl.
       + apply sym_sign_complete.
       + apply (w_key c W).
@@ -504,17 +564,18 @@ Proof.
       * apply (w_key c W).
     + apply eqb_refl_s.
     + apply eqb_refl_s.
-    + cbn [ac mk_access_token_claims a_aud]. rewrite the_client_eff. fold cl.
+    + cbn [ac mk_access_token_claims at_with_custom a_aud]. rewrite the_client_eff. fold cl.
       destruct (rq_aud (cs_req c)); apply strs_eqb_refl.
-    + cbn [ac mk_access_token_claims a_client_id]. rewrite the_client_eff. apply eqb_refl_s.
+    + cbn [ac mk_access_token_claims at_with_custom a_client_id]. rewrite the_client_eff. apply eqb_refl_s.
     + apply eqb_refl_s.
-    + cbn [ac mk_access_token_claims a_exp]. lia.
-    + cbn [ac mk_access_token_claims a_iat a_nbf]. lia.
-    + cbn [ac mk_access_token_claims a_iat]. rewrite the_skew_eff. fold cl. lia.
-    + cbn [ac mk_access_token_claims a_iat]. rewrite the_skew_eff. fold cl. lia.
-    + cbn [ac mk_access_token_claims a_extra]. rewrite the_drop_at_eff. fold cl.
-      destruct (is_exchange (cs_flow c)); [reflexivity|].
-      apply forallb_forall. intros e He. apply custom_claims_in in He.
+    + cbn [ac mk_access_token_claims at_with_custom a_exp]. lia.
+    + cbn [ac mk_access_token_claims at_with_custom a_iat a_nbf]. lia.
+    + cbn [ac mk_access_token_claims at_with_custom a_iat]. rewrite the_skew_eff. fold cl. lia.
+    + cbn [ac mk_access_token_claims at_with_custom a_iat]. rewrite the_skew_eff. fold cl. lia.
+    + cbn [ac mk_access_token_claims at_with_custom a_extra]. rewrite the_drop_at_eff. fold cl.
+      apply forallb_forall. intros e He. apply merge_registered_in in He as [He _].
+      destruct (is_exchange (cs_flow c)); [destruct He|].
+      apply custom_claims_in in He.
       unfold remove_userinfo in He. now apply string_in_filter in He.
     + destruct (at_consistent c) eqn:Ec; [now apply Hrd | reflexivity].
   - (* opaque *)
@@ -639,13 +700,16 @@ Section Readable.
         (i_name ic <> "" \/ i_username ic <> "" -> string_in "profile" g = true)
         /\ (i_email ic <> "" \/ i_email_verified ic = true -> string_in "email" g = true)
         /\ (i_phone ic <> "" \/ i_phone_verified ic = true -> string_in "phone" g = true)
-        /\ (i_addr ic <> "" -> string_in "address" g = true))
-    /\ i_extra ic = [].
+        /\ (i_addr ic <> "" -> string_in "address" g = true)
+        /\ (forall e, In e (i_extra ic) -> string_in ("custom:" ++ fst e)%string g = true)).
   Proof.
     intro Hid. destruct (resp_r_id j ic Hid) as (_ & Hj & Hic).
+    assert (Hex : forall e, In e (i_extra ic) ->
+                  string_in ("custom:" ++ fst e)%string (granted f cl rq (access_wire (r_access r))) = true).
+    { intros e He. rewrite Hic in He. now apply id_extra in He. }
     set (acc := access_wire (r_access r)) in *.
     pose proof (id_core H issuer f cl kid u rq acc now)
-      as (Iiss & Iaud & Iazp & _ & Iexp & Iiat & Iauth & Inonce & Iacr & Iamr & Iath & Ich & Iex).
+      as (Iiss & Iaud & Iazp & _ & Iexp & Iiat & Iauth & Inonce & Iacr & Iamr & Iath & Ich).
     pose proof (id_sub H issuer f cl kid u rq acc now) as Isub.
     pose proof (id_user_claims H issuer f cl kid u rq acc now) as (Un & Ue & Uv & Uu & Up & Upv & Ua).
     rewrite <- Hic in *. cbv zeta.
@@ -656,6 +720,52 @@ Section Readable.
     - intros [Hn|Hn]; [apply eqb_neq_s in Hn; now rewrite Hn in Ue | now rewrite Hn in Uv].
     - intros [Hn|Hn]; [apply eqb_neq_s in Hn; now rewrite Hn in Up | now rewrite Hn in Upv].
     - intro Hn. apply eqb_neq_s in Hn. now rewrite Hn in Ua.
+  Qed.
+
+  (* custom claims (any names: the storage's) never stand where a decoder that
+     matches names without case - encoding/json - looks for a registered member
+     that this token carries; and iss, sub, aud, azp, client_id, exp, iat are
+     always carried *)
+  Lemma nonnil_append_client c aud : nonnil (append_client c aud) = true.
+  Proof.
+    unfold append_client. destruct (string_in c aud) eqn:Ein.
+    - destruct aud; [discriminate Ein | reflexivity].
+    - destruct aud; reflexivity.
+  Qed.
+
+  Lemma nonempty_true x : x <> "" -> nonempty x = true.
+  Proof. intro Hx. unfold nonempty. apply eqb_neq_s in Hx. now rewrite Hx. Qed.
+
+  Lemma nonzero_true z : (0 < z)%Z -> nonzero z = true.
+  Proof. intro Hz. unfold nonzero. destruct (Z.eqb z 0) eqn:Ez; [lia | reflexivity]. Qed.
+
+  Definition id_core_names : list string := ["iss"; "sub"; "aud"; "azp"; "client_id"; "exp"; "iat"].
+
+  Theorem id_custom_never_shadows j ic :
+    r_id r = Some (j, ic) ->
+    (forall e n, In e (i_extra ic) -> In n (id_written ic) -> fold_eq (fst e) n = false)
+    /\ (issuer <> "" -> rq_sub rq <> "" -> cl_id cl <> "" ->
+        (0 < sec now - cl_skew cl)%Z -> (0 < sec now + cl_skew cl + cl_id_life cl)%Z ->
+        (forall n, In n id_core_names -> In n (id_written ic))
+        /\ (forall e n, In e (i_extra ic) -> In n id_core_names -> fold_eq (fst e) n = false)).
+  Proof.
+    intro Hid. destruct (resp_r_id j ic Hid) as (_ & Hj & Hic).
+    set (acc := access_wire (r_access r)) in *.
+    assert (H1 : forall e n, In e (i_extra ic) -> In n (id_written ic) -> fold_eq (fst e) n = false).
+    { intros e n He Hn. rewrite Hic in He, Hn. apply id_extra in He. now apply He. }
+    split; [exact H1|]. intros Hiss Hsub Hcl Hiat Hexp.
+    assert (H2 : forall n, In n id_core_names -> In n (id_written ic)).
+    { pose proof (id_core H issuer f cl kid u rq acc now)
+        as (Iiss & Iaud & Iazp & Icid & Iexp & Iiat & _).
+      pose proof (id_sub H issuer f cl kid u rq acc now) as Isub.
+      rewrite <- Hic in *.
+      unfold id_written.
+      rewrite Iiss, Isub, Iaud, Iazp, Icid, Iexp, Iiat.
+      rewrite (nonempty_true _ Hiss), (nonempty_true _ Hsub), (nonempty_true _ Hcl),
+              nonnil_append_client, (nonzero_true _ Hexp), (nonzero_true _ Hiat).
+      cbn [opt_name app]. intros n Hn. cbn [id_core_names In] in Hn.
+      destruct Hn as [<-|[<-|[<-|[<-|[<-|[<-|[<-|[]]]]]]]]; cbn [In]; auto 8. }
+    split; [exact H2|]. intros e n He Hn. apply (H1 e n He). now apply H2.
   Qed.
 
   (* ... and the relying party's check sequence accepts it *)
@@ -709,7 +819,8 @@ Section Readable.
     /\ a_exp a = st_exp now (cl_at_life cl')
     /\ a_iat a = (sec now - cl_skew cl')%Z /\ a_nbf a = a_iat a
     /\ (forall e, In e (a_extra a) ->
-          string_in ("custom:" ++ fst e)%string (restrict (cl_drop_at cl') (rq_scopes rq)) = true)
+          string_in ("custom:" ++ fst e)%string (restrict (cl_drop_at cl') (rq_scopes rq)) = true
+          /\ forall n, In n (at_written a) -> fold_eq (fst e) n = false)
     /\ (sign_complete verify kat -> key_ok kat = true -> published_once kat keys = true ->
         string_in (sk_alg kat) (effective_algs algs) = true ->
         (0 <= vnow)%Z -> (vnow < st_exp now (cl_at_life cl') * ns)%Z ->
@@ -722,9 +833,12 @@ Section Readable.
     destruct (has_access f); [|discriminate].
     unfold mk_access. destruct (cl_jwt_at cl'); [|discriminate].
     intro Ea. inversion Ea; subst w j a; clear Ea.
-    cbn [mk_access_token_claims a_iss a_sub a_aud a_client_id a_jti a_exp a_iat a_nbf a_extra].
-    repeat split.
-    - intros e He. destruct (is_exchange f); [destruct He|].
+    cbn [mk_access_token_claims at_with_custom a_iss a_sub a_aud a_client_id a_jti a_exp a_iat a_nbf a_extra].
+    split; [reflexivity|]. split; [reflexivity|]. split; [reflexivity|]. split; [reflexivity|].
+    split; [reflexivity|]. split; [reflexivity|]. split; [reflexivity|]. split; [reflexivity|].
+    split; [reflexivity|]. split.
+    - intros e He. apply merge_registered_in in He as [He Hno]. split; [|exact Hno].
+      destruct (is_exchange f); [destruct He|].
       apply custom_claims_in in He. unfold remove_userinfo in He. now apply string_in_filter in He.
     - intros Hs Hk Hp Ha H0 H1.
       apply verify_access_accepts; try assumption; reflexivity.
